@@ -334,6 +334,29 @@ theorem sub_error_close_pass (layers : List SubLayer) (b : Bool) (n : Nat) :
   | nil => exact ⟨rfl, rfl⟩
   | cons l rest ih => simpa [subscribeErr, closeSub] using ih
 
+/-- **a refused Subscribe passes through and leaves nothing behind**: on any stack every Subscribe call returns the
+    wrapped subscriber's own answer for that call (so a retry after a refusal works), and in each transform decorator
+    the WaitGroup that `Close` waits on registers exactly the forwarding goroutines that were started – whatever the
+    pattern of refusals, `Close` has nothing to wait for once the wrapped Close ended them -/
+theorem subscribe_refusal_passes_and_close_returns (layers : List SubLayer) (script : List Bool) :
+    subscribeSeq layers script = script.map (fun b => if b then some Err.sub else none) ∧
+    wgRegistered script - pumpsStarted script = 0 := by
+  constructor
+  · simp [subscribeSeq, (sub_error_close_pass layers _ 0).1]
+  · have : wgRegistered script = pumpsStarted script := by
+      induction script with
+      | nil => rfl
+      | cons b rest ih => simp [wgRegistered, pumpsStarted, ih]; omega
+    omega
+
+/-- the seeded registration in front of the wrapped Subscribe: one refusal and `Close` waits forever -/
+theorem early_registration_blocks_close_witness :
+    wgRegisteredEarly [true] - pumpsStarted [true] = 1 ∧ wgRegistered [true] - pumpsStarted [true] = 0 := by
+  decide
+
+example : subscribeSeq [.metrics, .transform id] [true, false] = [some .sub, none] := by
+  rw [(subscribe_refusal_passes_and_close_returns _ _).1]; rfl
+
 /-- **every Close call passes through, also a retried one**: for any sequence of Close calls on any subscriber stack
     – the wrapped subscriber failing in any pattern – EACH call reaches the wrapped subscriber exactly once and returns
     that call's own result (a decorator that closes the wrapped subscriber only the first time would swallow the retry) -/
